@@ -284,6 +284,16 @@ static void fixed_one(const char *name, T v, Enc enc, Dec dec)
     T back = dec((const char *)h.c());
     VP_CHECK(back == v, fmt("hex_to_uint%s_roundtrip", name), "hex_to_uint(%s)=%llX", want,
              (unsigned long long)back);
+    // fields packed back to back (a frame of several fixed-width numbers): the decoder takes its own 2/4/8/16 digits, whatever
+    // follows them
+    static const char *const follow[] = {"AB", "0", "F00D", "\0", " 1", "xyz", "9"};
+    const char *f = follow[(size_t)((unsigned long long)v % 7)];
+    size_t fl = strlen(f) + 1;
+    Exact packed(w + fl);
+    memcpy(packed.p, want, w);
+    memcpy(packed.p + w, f, fl);
+    T back2 = dec((const char *)packed.c());
+    VP_CHECK(back2 == v, fmt("hex_to_uint%s_packed", name), "hex_to_uint of the field %s followed by \"%s\" gives %llX", want, f, (unsigned long long)back2);
 }
 static void fx8(uint8_t v) { fixed_one<uint8_t>("8", v, uint8_to_hex, hex_to_uint8); }
 static void fx16(uint16_t v) { fixed_one<uint16_t>("16", v, uint16_to_hex, hex_to_uint16); }
